@@ -103,6 +103,11 @@ CoinsStr(coins) == IF coins = <<>> THEN ""
 Ev(ty, attrs) == [ty |-> ty, attrs |-> attrs]
 CA == <<"_contract_address">>
 
+(* the checksum symbol of a stored code: the default generator derives it from the code id; in mode "percode" the
+   keeper also has a custom ChecksumGenerator that derives it from the CREATOR only, so that different codes of one
+   creator share a checksum (and with it their salted addresses) *)
+CkOf(id, creator) == IF AddrMode = "percode" THEN "kc_" \o creator ELSE "k" \o ToString(id)
+
 (* ------------------------------------------------------------------------ *)
 (* results                                                                  *)
 Ok(x, ev, data) == [x |-> x, ok |-> TRUE, ev |-> ev, data |-> data]
@@ -531,11 +536,11 @@ AdminCall(cd, blk, call) ==
     CASE call.k = "store_code" ->
            LET id == MaxOf(DOMAIN cd) + 1 IN
            [ok |-> TRUE, val |-> id, block |-> blk,
-            codes |-> PutFn(cd, id, [creator |-> call.creator, flavour |-> call.flavour, ck |-> "k" \o ToString(id)])]
+            codes |-> PutFn(cd, id, [creator |-> call.creator, flavour |-> call.flavour, ck |-> CkOf(id, call.creator)])]
       [] call.k = "store_code_with_id" ->
            IF call.id = 0 \/ call.id \in DOMAIN cd THEN [ok |-> FALSE, val |-> 0, block |-> blk, codes |-> cd]
            ELSE [ok |-> TRUE, val |-> call.id, block |-> blk,
-                 codes |-> PutFn(cd, call.id, [creator |-> call.creator, flavour |-> call.flavour, ck |-> "k" \o ToString(call.id)])]
+                 codes |-> PutFn(cd, call.id, [creator |-> call.creator, flavour |-> call.flavour, ck |-> CkOf(call.id, call.creator)])]
       [] call.k = "duplicate_code" ->
            IF call.id \notin DOMAIN cd THEN [ok |-> FALSE, val |-> 0, block |-> blk, codes |-> cd]
            ELSE LET id == MaxOf(DOMAIN cd) + 1 IN
